@@ -729,6 +729,11 @@ class Project(MessageHandler):
         if not self.attributes.get("start") or not self.attributes.get("end"):
             return
 
+        # Backward-scheduled tasks without a deadline of their own are anchored at the end the
+        # project file declares, wherever the scheduling horizon is moved to below
+        if getattr(self, "declaredEnd", None) is None:
+            self.declaredEnd = self.attributes["end"]
+
         # Calculate total effort and gaps needed
         total_effort_seconds: float = 0
         total_gap_seconds: float = 0
